@@ -124,6 +124,12 @@ Next == ChildInit \/ LoopCheck \/ Begin \/ Iter \/ GenGsc \/ Lsc \/ LocalRun \/ 
 
 Spec == Init /\ [][Next]_vars
 
+\* C05 "run() performs whole metaepochs until the global stop condition holds and returns": with a condition that is
+\* bound to hold eventually (MetaepochLimit) every fair behaviour reaches pc = "done".  Checked without a state
+\* constraint (a constraint can hide non-progress cycles) on LiveConfigs.
+FairSpec    == Spec /\ WF_vars(Next)
+Termination == <>(st.pc = "done")
+
 Bound == st.mc <= MaxMeta /\ Cardinality(Ids(st)) <= MaxDemes
 
 -----------------------------------------------------------------------------
